@@ -60,6 +60,17 @@ def loop_forms(n):
         t = {"k": "combine", "a": {"k": "for", "c": {"id": 0, "acts": [["add", 2, 1]], "e": ["lt", 2, 3]}, "p": p,
                                     "b": {"k": "bind", "v": ["reg", 2], "id": 0, "acts": [], "body": inner}}, "b": rtgen.copy(tail)}
         out["%s/yield_then_inner_stretch" % pn] = rtgen.assign_ids(t)
+    # `for {}` (seq.Loop) that suspends in its first iteration and then runs n non-yielding iterations before it returns:
+    #   for { r0++; r2 = 0; if r0 != n { r2 = 1 }; if r2 != 1 { return }; if r1 < 1 { yield 7; r1 = 1 } }
+    brk = {"k": "sig", "t": "break"}
+    body = {"k": "delay", "id": 0, "acts": [["add", 0, 1], ["set", 2, 0]], "body": {"k": "combine",
+            "a": {"k": "for", "c": {"id": 0, "acts": [], "e": ["ne", 0, max(n, 2)]}, "p": None,
+                  "b": {"k": "delay", "id": 0, "acts": [["set", 2, 1]], "body": brk}},
+            "b": {"k": "combine",
+                  "a": {"k": "for", "c": {"id": 0, "acts": [], "e": ["ne", 2, 1]}, "p": None, "b": {"k": "retv", "v": ["const", 5]}},
+                  "b": {"k": "for", "c": {"id": 0, "acts": [], "e": ["lt", 1, 1]}, "p": None,
+                        "b": {"k": "bind", "v": ["const", 7], "id": 0, "acts": [["set", 1, 1]], "body": N}}}}}
+    out["loop/header_then_stretch_return"] = rtgen.assign_ids({"k": "for", "c": None, "p": None, "b": body})
     return out
 
 
@@ -97,6 +108,8 @@ def check(rep, tier):
                                                         "case": [c for c, mt in zip(cases, meta) if mt == (name, max(d))][0]})
                 rep.violation(path)
                 break
+        if rep.violations:
+            return      # growth already shown at small counts: the long runs would only exhaust the stack
         # long runs on the real runtime only (no Coq): 10^5 / 10^6 iterations
         big = 100000 if tier == "quick" else 1000000
         bc, bm = [], []
